@@ -413,15 +413,30 @@ JobWaitReturn(i) ==
   /\ s' = [s EXCEPT !.mwait = <<NONE, NONE>>, !.mpc = @ + 1]
   /\ UNCHANGED wl
 
-(* SIGKILL of the scheduler process: memory is lost, the OS drops its file locks *)
+(* SIGKILL of the scheduler process: memory is lost, the OS drops its file locks; the main program of the dead
+   process is over: the next thing that can happen to the workspace is the next `restart` *)
+NextRestart(k) == IF \E x \in k..Len(wl.program) : wl.program[x].op = "restart"
+                  THEN CHOOSE x \in k..Len(wl.program) : wl.program[x].op = "restart" /\ \A y \in k..(x - 1) : wl.program[y].op # "restart"
+                  ELSE Len(wl.program) + 1
+Dead(st) == [FreshMem(st) EXCEPT !.phase = "dead",
+                                 !.lockh = [n \in Names |-> IF st.lockh[n] = "sched" THEN "free" ELSE st.lockh[n]],
+                                 !.mpc = NextRestart(st.mpc)]
 Die ==
   /\ Running
-  /\ s' = [FreshMem(s) EXCEPT !.phase = "dead",
-                              !.lockh = [n \in Names |-> IF s.lockh[n] = "sched" THEN "free" ELSE s.lockh[n]],
-                              !.mpc = IF Op.op = "kill" THEN s.mpc + 1 ELSE s.mpc]
+  /\ s' = Dead(s)
   /\ UNCHANGED wl
 
-KillOp == Running /\ MainFree /\ Op.op = "kill" /\ Die
+(* ... or in the middle of the launch block: the job process exists, its pid file was never written *)
+DieAfterSpawn(i) ==
+  /\ Running /\ BagIn(s.ready, CbTask(i)) /\ s.pc[i] = "lockin"
+  /\ \E order \in Perms(ReqTokens(NameOf(i))) :
+       LET n == NameOf(i)
+           r == Acquire([s EXCEPT !.ready = BagDel(@, CbTask(i))], i, order)
+       IN /\ r.ok
+          /\ s' = Dead([r.st EXCEPT !.proc[n] = Append(@, "spawned"), !.launches[n] = @ + 1])
+  /\ UNCHANGED wl
+
+KillOp == Running /\ MainFree /\ Op.op = "kill" /\ (Die \/ \E i \in Insts : DieAfterSpawn(i))
 
 (* a new experiment on the same workspace *)
 Restart ==
